@@ -57,6 +57,12 @@ class Target:
             if c.eval_budget < 0:
                 c.eval_budget = None
                 raise _ctx.Runaway("evaluation budget of the operation exhausted")
+        b = c.eval_budgets.get(self.tag)
+        if b is not None:
+            c.eval_budgets[self.tag] = b - 1
+            if b - 1 < 0:
+                c.eval_budgets[self.tag] = None
+                raise _ctx.Runaway("evaluation budget of the operation exhausted")
         cost = self.cost if self.cost is not None else (c.eval_cost if kind == "post" else c.grad_cost)
         if c.sim is not None:
             if cost > 0:
